@@ -2309,15 +2309,12 @@ def array_sample(
         raise NotImplementedError(f'no handling for axis {array.ndim}')
 
     if seed is not None:
-        state = np.random.get_state()
-        np.random.seed(seed)
-
-    post = np.random.choice(array, size=count, replace=False)
+        # a private generator gives the same draw as seeding the global one, without touching state shared by other threads
+        post = np.random.RandomState(seed).choice(array, size=count, replace=False)
+    else:
+        post = np.random.choice(array, size=count, replace=False)
     if sort:
         post.sort(kind=DEFAULT_SORT_KIND)
-
-    if seed is not None:
-        np.random.set_state(state)
 
     post.flags.writeable = False
     return post
